@@ -79,7 +79,7 @@ class Moves(Part):
                 cases.append({"kind": "movetable", "alg": alg, "shift": shift, "scale": scale})
         cases.append({"kind": "constrict"})
         for alg in ("omopso", "smpso", "psoga"):
-            for _ in range(30 if ctx.quick else 300):
+            for _ in range(30 if ctx.quick else 2500):
                 cases.append({"kind": "velocity", "alg": alg, "cseed": rng.randrange(1 << 30)})
         return cases
 
@@ -185,11 +185,11 @@ class Bests(Part):
             for i in range(0, len(pairs), chunk):
                 cases.append({"kind": "best", "alg": alg, "pairs": pairs[i:i + chunk], "cseed": rng.randrange(1 << 30)})
         for alg in ("omopso", "smpso", "psoga"):
-            for _ in range(30 if ctx.quick else 300):
+            for _ in range(30 if ctx.quick else 2500):
                 # small swarms and several objectives: the non-dominated set regularly outgrows the swarm, so truncation is exercised
                 cases.append({"kind": "leaders", "alg": alg, "n": rng.choice([2, 2, 3, 4, 6]), "gens": rng.randint(3, 6), "m": rng.choice([1, 2, 2, 3]),
                               "cseed": rng.randrange(1 << 30)})
-            for _ in range(4 if ctx.quick else 40):
+            for _ in range(4 if ctx.quick else 300):
                 cases.append({"kind": "run", "alg": alg, "n": rng.randint(3, 8), "g": rng.randint(2, 6), "cseed": rng.randrange(1 << 30)})
         return cases
 
